@@ -27,6 +27,9 @@ pub enum Hist {
     Zero,
     /// decoded through compact bits after being wrapped in an option: Value::some(x).as_right()
     SomeInner,
+    /// output of the Bit Machine: the value is written into a frame that reuses a region filled
+    /// with ones and is copied out by `iden`, so sum padding holds arbitrary bits
+    MachineOutput,
 }
 
 pub fn all_hists() -> Vec<Hist> {
@@ -34,7 +37,7 @@ pub fn all_hists() -> Vec<Hist> {
     for r in 1..8 {
         v.push(Hist::SubProdR(r));
     }
-    v.extend([Hist::SubProdL, Hist::SubSumL, Hist::SubSumR, Hist::Pruned, Hist::Zero, Hist::SomeInner]);
+    v.extend([Hist::SubProdL, Hist::SubSumL, Hist::SubSumR, Hist::Pruned, Hist::Zero, Hist::SomeInner, Hist::MachineOutput]);
     v
 }
 
@@ -141,6 +144,26 @@ pub fn produce(t: &Rc<RT>, v: &Rc<RV>, h: &Hist) -> Result<Option<Value>, String
             } else {
                 Ok(None)
             }
+        }
+        Hist::MachineOutput => {
+            use crate::reference::eval::{Term, Tm};
+            use crate::space::terms::{place, Builder, Place};
+            let one = RT::unit();
+            // scribe-like term built from injections and pairs only, so that padding is skipped, not written
+            fn scribe(v: &RV, t: &Rc<RT>, src: &Rc<RT>) -> Rc<Term> {
+                match (v, &**t) {
+                    (RV::Unit, _) => Term::new(Tm::Unit, src, t),
+                    (RV::L(a), RT::Sum(ta, _)) => Term::new(Tm::InjL(scribe(a, ta, src)), src, t),
+                    (RV::R(b), RT::Sum(_, tb)) => Term::new(Tm::InjR(scribe(b, tb, src)), src, t),
+                    (RV::Pair(a, b), RT::Prod(ta, tb)) => Term::new(Tm::Pair(scribe(a, ta, src), scribe(b, tb, src)), src, t),
+                    _ => panic!("value not of type"),
+                }
+            }
+            let term = place(&scribe(v, t, &one), Place::DirtyOutput);
+            let prog = Builder::new().redeem(&term)?;
+            let mut mac = simplicity::BitMachine::for_program(&prog).map_err(|e| e.to_string())?;
+            let out = mac.exec(&prog, &simplicity::jet::CoreEnv::new()).map_err(|e| format!("machine failed: {e}"))?;
+            Ok(Some(out))
         }
         Hist::SomeInner => {
             let s = Value::some(v.to_value(t));
